@@ -25,7 +25,15 @@ static std::vector<Point64> sample_pts(Rng& r, const Paths64& all, bool rect, in
   return pts;
 }
 
+static void run_case_body(std::ostream& os, uint64_t s0, long long id, const std::string& fam, const Paths64& S, const Paths64& C,
+                     const Emb& emb, int npts, const std::string& cfg, bool reunion, long long& nexec);
 static void run_case(std::ostream& os, uint64_t s0, long long id, const std::string& fam, const Paths64& S, const Paths64& C,
+                     const Emb& emb, int npts, const std::string& cfg, bool reunion, long long& nexec) {
+  std::string what = "\"case\":{\"subj\":" + jpaths(S) + ",\"clip\":" + jpaths(C) + ",\"emb\":" + jnum(emb.id) + "}";
+  guarded(os, what, 120, [&](std::ostream& o) { run_case_body(o, s0, id, fam, S, C, emb, npts, cfg, reunion, nexec); });
+  nexec += (cfg == "lite" ? 16 : 64) * (cfg == "notree" ? 1 : 2);   // executions happen in the child; count nominally
+}
+static void run_case_body(std::ostream& os, uint64_t s0, long long id, const std::string& fam, const Paths64& S, const Paths64& C,
                      const Emb& emb, int npts, const std::string& cfg, bool reunion, long long& nexec) {
   Paths64 all = S; all.insert(all.end(), C.begin(), C.end());
   bool rect = rectilinear(all);
